@@ -119,6 +119,12 @@ pub trait KsfSpec: Ksf {
     const KIND: &'static str;
     fn make(param: &Value) -> Result<Self, String>;
     fn describe(&self) -> Value;
+    /// Reference evaluation of the stretching function computed WITHOUT opaque-ke's `Ksf` adapter (only for
+    /// KSFs that are not mirrored in Python): what the specification says the configured function returns
+    /// for `input` with an output of `len` bytes.
+    fn reference(&self, _input: &[u8], _len: usize) -> Option<Result<Vec<u8>, String>> {
+        None
+    }
 }
 
 impl KsfSpec for HKsf {
@@ -160,6 +166,15 @@ impl KsfSpec for argon2::Argon2<'static> {
     }
     fn describe(&self) -> Value {
         json!("argon2")
+    }
+    fn reference(&self, input: &[u8], len: usize) -> Option<Result<Vec<u8>, String>> {
+        // RFC 9807 section 7 / 10: Argon2id with S = zeroes(16) and T = Nh, straight from the argon2 crate
+        let mut out = vec![0u8; len];
+        Some(
+            self.hash_password_into(input, &[0u8; 16], &mut out)
+                .map(|_| out)
+                .map_err(|e| format!("{e}")),
+        )
     }
 }
 
